@@ -45,19 +45,43 @@ def lamDtheta (r0 r1 : V3) (prograde : Bool) : R :=
   else if prograde = false ∧ crz ≥ 0 then 2 * pi - d
   else d
 
-/-- `while _F(z) < 0: z += 0.05` — unbounded in the code, hence the fuel; `none` = fuel exhausted -/
-def lamScan (nr0 nr1 A duration mu : R) : Nat → R → Option R
-  | 0, _ => none
-  | fuel + 1, z => if lamF nr0 nr1 A z duration mu < 0 then lamScan nr0 nr1 A duration mu fuel (z + 0.05) else some z
+/-- `z_low = -inf; while _F(z) < 0: z_low = z; z += 0.05` — unbounded in the code, hence the fuel;
+`none` = fuel exhausted.  Returns `(z_low, z)`; `z_low = none` stands for `-inf` (the scan did not move). -/
+def lamScan (nr0 nr1 A duration mu : R) : Nat → Option R → R → Option (Option R × R)
+  | 0, _, _ => none
+  | fuel + 1, lo, z =>
+    if lamF nr0 nr1 A z duration mu < 0 then lamScan nr0 nr1 A duration mu fuel (some z) (z + 0.05) else some (lo, z)
 
-/-- `for n in range(nmax): ratio = F/dF; z -= ratio; if abs(ratio) < tol: break`.
+/-- `z_low <= c <= z_high`, a missing bound being infinite -/
+def lamInBracket (lo hi : Option R) (c : R) : Prop :=
+  (match lo with | some l => l ≤ c | none => True) ∧ (match hi with | some h => c ≤ h | none => True)
+
+instance (lo hi : Option R) (c : R) : Decidable (lamInBracket lo hi c) := by
+  unfold lamInBracket; cases lo <;> cases hi <;> exact inferInstance
+
+/-- `(z_low + z_high) / 2`.  With an infinite bound the code computes ∓inf or NaN (and everything after it is
+NaN); `1/0`, `0/0` reproduce that in double precision, over ℝ they are junk values no theorem speaks about. -/
+def lamMid (lo hi : Option R) : R :=
+  match lo, hi with
+  | some l, some h => (l + h) / 2
+  | none, some _ => -(1 / 0)
+  | some _, none => 1 / 0
+  | none, none => 0 / 0
+
+/-- the bracketed Newton loop (fix 5cfb34d):
+`for n in range(nmax): F_z = F(z); z_low = z if F_z < 0 else z_high = z; ratio = F_z/dF(z);
+ if not z_low <= z - ratio <= z_high: ratio = z - (z_low + z_high)/2; z -= ratio; if abs(ratio) < tol: break`.
 Returns the final `z` and whether the loop was left through `break` (otherwise the code only logs
 a warning and goes on with the last iterate). -/
-def lamNewton (nr0 nr1 A duration mu tol : R) : Nat → R → R × Bool
-  | 0, z => (z, false)
-  | n + 1, z =>
-    let ratio := lamF nr0 nr1 A z duration mu / lamDF nr0 nr1 A z
-    if absR ratio < tol then (z - ratio, true) else lamNewton nr0 nr1 A duration mu tol n (z - ratio)
+def lamNewton (nr0 nr1 A duration mu tol : R) : Nat → Option R → Option R → R → R × Bool
+  | 0, _, _, z => (z, false)
+  | n + 1, lo, hi, z =>
+    let Fz := lamF nr0 nr1 A z duration mu
+    let lo' := if Fz < 0 then some z else lo
+    let hi' := if Fz < 0 then hi else some z
+    let newton := Fz / lamDF nr0 nr1 A z
+    let ratio := if lamInBracket lo' hi' (z - newton) then newton else z - lamMid lo' hi'
+    if absR ratio < tol then (z - ratio, true) else lamNewton nr0 nr1 A duration mu tol n lo' hi' (z - ratio)
 
 /-- the velocities built from `f, g, gdot` -/
 def lamVel (nr0 nr1 A z mu : R) (r0 r1 : V3) : V3 × V3 :=
@@ -72,10 +96,11 @@ def lambert (r0 r1 : V3) (duration mu : R) (prograde : Bool) (fuel : Nat) : Opti
   let nr0 := V3.norm r0
   let nr1 := V3.norm r1
   let A := lamA nr0 nr1 (lamDtheta r0 r1 prograde)
-  match lamScan nr0 nr1 A duration mu fuel 0 with
+  match lamScan nr0 nr1 A duration mu fuel none 0 with
   | none => none
-  | some z0 =>
-    let zc := lamNewton nr0 nr1 A duration mu 1e-8 5000 z0
+  | some (lo, z0) =>
+    let hi : Option R := match lo with | some _ => some z0 | none => none
+    let zc := lamNewton nr0 nr1 A duration mu 1e-8 5000 lo hi z0
     let vv := lamVel nr0 nr1 A zc.1 mu r0 r1
     some (vv.1, vv.2, zc.1, zc.2)
 
@@ -96,10 +121,14 @@ def walkerFleet (delta : Bool) (total planes spacing : Nat) (raan0 : R) : List (
 
 /-! ## beta angle -/
 
-/-- `beta`: `arcsin(w.ref / (|w||ref|))` with `w = p × v` -/
+/-- `np.clip(x, lo, hi)` (a NaN passes through, as in numpy) -/
+def clipR (x lo hi : R) : R := if x < lo then lo else if x > hi then hi else x
+
+/-- `beta`: `arcsin(clip(w.ref / (|w||ref|), -1, 1))` with `w = p × v` (clip: fix 1d112fc) -/
 def betaAngle (p v ref : V3) : R :=
   let w := V3.cross p v
-  asin (V3.dot w ref / (V3.norm w * V3.norm ref))
+  let sin_beta := V3.dot w ref / (V3.norm w * V3.norm ref)
+  asin (clipR sin_beta (-1) 1)
 
 /-! ## B-plane -/
 
